@@ -44,7 +44,7 @@ func c16TableSize() int {
 func c16Counts(tier string) (origin, table, vp, mixed int) {
 	t := (c16TableSize() + 19) / 20
 	if tier == "thorough" {
-		return c16OriginCases, t, 60, 250000
+		return c16OriginCases, t, 60, 500000
 	}
 	return c16OriginCases, t, 30, 8000
 }
